@@ -9,7 +9,7 @@ From RtrV Require Import Base.CSem Gen.Generated Rtr.RtrModel Rtr.RelFrame Rtr.R
 From RtrV Require Rtr.RecvExamples.   (* concrete instances *)
 From RtrV Require Import Base.Mem Gen.GeneratedMem Rtr.CheckSizeTie Rtr.PrefixValidTie.
 From RtrV Require Import Base.MemW Gen.GeneratedMemW Rtr.FooterTie.
-From RtrV Require Gen.GeneratedFsm3 Rtr.FsmTie Rtr.FsmTie3.
+From RtrV Require Gen.GeneratedFsm3 Rtr.FsmTie Rtr.FsmTie3 Rtr.FsmTie3b Rtr.ExpiryFrames.
 Local Open Scope Z_scope.
 
 (* ---- (1) termination: all model functions are structural recursions (on the script, or on explicit fuel);
@@ -233,7 +233,9 @@ Proof. exact footer_translator_clean. Qed.
                                PDU type, split delivery, the version rules, every length / size / type rejection with the Error Report
                                that goes out, every transport outcome in header and payload phase - result code, final world with its
                                trace, socket fields and, on success, all 3248 bytes of the buffer (= footer_host (header_host p)).
-   Not proved for arbitrary worlds: length checks, version logic, payload phase, size check, footer conversion, Error Reports.
+   Proved for every world since (Rtr/FsmTie3b.v, theorems below): everything decided by the header - length below a header, above
+   the maximum, the version rules - and a transport failure while the payload is read.  Not proved for arbitrary worlds: the paths
+   after a complete payload (size check rejecting, footer conversion, success).
    A difference found: a transport that returns a POSITIVE error code is taken for success by the C (recv_positive_error_code_differs);
    the mock and every real transport return negative codes. *)
 Theorem C04_receive_pdu_translated_partial : forall fuel m len t w,
@@ -250,6 +252,14 @@ Proof.
   - intros Hs. exact (Rtr.FsmTie3.recv_shutdown fuel m len t w Hl Hs).
   - intros c w1 Hm Hr Hn Ht Hc. exact (Rtr.FsmTie3.recv_header_fails fuel m len t w c w1 Hl Hm Hr Hn Ht Hc).
 Qed.
+
+Theorem C04_receive_header_rejections_translated : forall fuel m len t w h w1,
+  (c_RTR_MAX_PDU_LEN <= len)%Z -> (8 <= zlen m)%Z -> (0 <= st (sk w) < 2^32)%Z -> st (sk w) <> c_RTR_SHUTDOWN ->
+  Rtr.ExpiryFrames.Tm w -> (0 <= version (sk w) < 2^32)%Z ->
+  tr_recv_all 8 t w = Ok (inr h) w1 -> Rtr.FsmTie3b.header_rejects (sk w) h = true ->
+  Rtr.FsmTie3.interp3 fuel (Gen.GeneratedFsm3.rtr_receive_pdu_gen m (Some 0%Z) len t (Rtr.FsmTie.sock_store (sk w))) nil w =
+  Some (Rtr.FsmTie3.as_recv (fun _ => Base.MemW.st_list m 0 h) (receive_pdu t) w).
+Proof. exact Rtr.FsmTie3b.recv_header_phase. Qed.
 
 (* the evaluation part, kept in the cone of this property so that a change of rtr_receive_pdu that the scripts exercise stops the build *)
 Example C04_receive_pdu_translation_tests :=
@@ -288,3 +298,4 @@ Print Assumptions C04_footer_translated.
 Print Assumptions C04_receive_path_inside.
 Print Assumptions C04_error_text_len_load_inside.
 Print Assumptions C04_receive_pdu_translated_partial.
+Print Assumptions C04_receive_header_rejections_translated.
